@@ -697,20 +697,19 @@ pub fn check(prop: &Prop, tier: Tier) -> i32 {
         unknown,
         wall
     );
-    if !machinery.is_empty() {
-        for m in &machinery {
-            eprintln!("MACHINERY: {m}");
-        }
-        return 2;
+    for m in &machinery {
+        eprintln!("MACHINERY: {m}");
     }
-    if !merged.caps_hit.is_empty() {
-        for c in &merged.caps_hit {
-            eprintln!("CAP: {c}");
-        }
-        return 2;
+    for c in &merged.caps_hit {
+        eprintln!("CAP: {c}");
     }
+    // A violation that was reproduced twice is reported as such even if some other part of the run
+    // had a machinery problem; a run without violations but with a machinery problem or a cap is
+    // not a verdict (exit 2).
     if unknown > 0 {
         1
+    } else if !machinery.is_empty() || !merged.caps_hit.is_empty() {
+        2
     } else {
         0
     }
